@@ -410,6 +410,9 @@ func (w *World) ByzAction(t *rapid.T, profile string) {
 		w.byzForgedFlood(t)
 		return
 	}
+	if rapid.IntRange(0, 5).Draw(t, "byztransplant") == 0 && w.byzTransplant(t) {
+		return
+	}
 	if rapid.IntRange(0, 7).Draw(t, "byzpoison") == 0 && w.byzPoisonNext(t) {
 		return
 	}
@@ -639,6 +642,62 @@ func (w *World) byzPush() bool {
 			}
 			w.Stats.HijackConverges++
 			return true
+		}
+		if r == 0 {
+			break
+		}
+	}
+	return false
+}
+
+// byzTransplant: the coalition takes a genuine strong quorum it can assemble (PREPARE of some
+// round for a chain V honest participants voted for) and uses it twice: in a valid COMMIT for
+// V (the carrier) and in a COMMIT of the same round for a chain nobody honest proposed. The
+// second message is invalid on every path (its justification is for another value); in its
+// partial form the justification carries no chain at all, so only the aggregate check against
+// the announced key can tell. Once per instance and round.
+func (w *World) byzTransplant(t *rapid.T) bool {
+	cfg := w.Cfg
+	var cands []*Node
+	for _, n := range w.Nodes {
+		if n.Started && cfg.Inst(n.P.Progress().ID) != nil {
+			cands = append(cands, n)
+		}
+	}
+	if len(cands) == 0 {
+		return false
+	}
+	n := cands[rapid.IntRange(0, len(cands)-1).Draw(t, "transplantnode")]
+	inst := n.P.Progress().ID
+	base := n.Bases[inst]
+	in := n.Inputs[inst]
+	if base == nil || in == nil {
+		return false
+	}
+	if w.transplanted == nil {
+		w.transplanted = map[[2]uint64]bool{}
+	}
+	evil := PathChain(base, []int{5})
+	var all []int
+	for i := range w.Nodes {
+		all = append(all, i)
+	}
+	for r := w.maxHonestRound() + 1; ; r-- {
+		if !w.transplanted[[2]uint64{inst, r}] {
+			for l := in.Len(); l >= 1; l-- {
+				v := in.Prefix(l - 1)
+				j, ok := w.ByzJustify(inst, r, gpbft.PREPARE_PHASE, v, false)
+				if !ok || j == nil {
+					continue
+				}
+				w.transplanted[[2]uint64{inst, r}] = true
+				w.SendByz(w.ByzMessage(cfg.Byz[0], inst, r, gpbft.COMMIT_PHASE, v, j), all)
+				for _, id := range cfg.Byz {
+					w.SendByz(w.ByzMessage(id, inst, r, gpbft.COMMIT_PHASE, evil, j), all)
+				}
+				w.Stats.Transplants++
+				return true
+			}
 		}
 		if r == 0 {
 			break
